@@ -273,6 +273,12 @@ def advance_rule(F, rep, blk):
             except linear.NonLinear:
                 pass
     ok = any(a[0] == "eq0" and a[1] == "raw_len" for a in atoms) and neg
+    # .. and *only* then: the full parse has no such exit, so any further refusal inside the skip block rejects a replay the
+    # full parse reads (fail closed: one construction of the crate's refusal error on the pinned tree, the "Cannot skip" one)
+    refusals = [tir.sp(x) for x in tir.walk(blk["then"]) if x.get("k") in ("Call", "Struct") and "Error::InvalidData" in (x.get("path") or declared(x) or "")]
+    rep.ob("advance.no-extra-refusal", len(refusals) <= 1, READ, "refusals",
+           "the skip-frames block constructs %d refusals (%s), one on the pinned tree (raw_len == 0 or fewer than a Game End's bytes remain): with skip-frames the reader can reject a replay it reads in full" % (len(refusals), ", ".join(refusals)))
+    rep.floor("refusal sites in the skip-frames block", len(refusals), 1)
     rep.ob("advance.guard", ok, READ, "guard", "the block must refuse to skip when raw_len is 0 or fewer than a Game End's bytes remain; refusal conditions found: %s" % sorted(a[:3] for a in atoms))
 
 
